@@ -39,7 +39,7 @@ LOWER_OK = ["plain", "flank", "mass", "named", "flankmass"]      # notations tha
 MASSES = ["[+16]", "[+15.995]", "[-17.03]", "[+57.02146]", "[1.1]", "[Oxidation]"]
 NAMED = ["(ox)", "(ph)", "(Oxidation)", "(UniMod:35)", "(+15.99)"]
 LOWTOK = ["ox", "p", "cam", "m"]
-FLANKS = [("K.", ".A"), ("-.", ".R"), ("R.", ".-"), ("A.", ".C")]
+FLANKS = [("K.", ".A"), ("-.", ".R"), ("R.", ".-"), ("A.", ".C"), ("AK.", ".GT"), (".", ".")]   # incl. several / no flanking residues
 _CASE_RE = re.compile(r'<<\s*"CASE",\s*(\d+),\s*<<([^>]*)>>,\s*<<([^>]*)>>,\s*<<([^>]*)>>,\s*<<([^>]*)>>\s*>>')
 
 
@@ -182,6 +182,17 @@ def build_fasta(c, workdir):
         while a or b:
             take_a = bool(a) and (not b or rng.random() < 0.5)
             order.append(a.pop(0) if take_a else b.pop(0))
+    if mode != "none" and c["idx"] % 5 == 3:
+        # a large spiked-in standard WITHOUT a decoy counterpart: the target with the most peptides of the file (none of them in
+        # the peptide table).  The file still has decoys for every other target.
+        known = set(tp) | set(dp)
+        spike = []
+        while len(spike) < nxt + 4:
+            s = "".join("ACDEFGHILMNQSTVWY"[int(j)] for j in rng.integers(0, 17, max(1, len(tp[0]) - 1))) + "K"   # a length the digest keeps
+            if s not in known and s not in spike:
+                spike.append(s)
+        r["entries"][len(r["entries"]) + 1] = ("SPIKE_IN_STANDARD", "".join(spike))
+        order = order + [len(r["entries"])]
     paths = c16.write_files(case16, r, order, workdir, "p%d" % os.getpid())
     kw = dict(r["params"])
     if kw["enzyme"] == "compiled":
